@@ -18,6 +18,7 @@ import (
 	"net/url"
 	"os"
 	"path/filepath"
+	"runtime"
 	"sort"
 	"strings"
 	"sync"
@@ -171,6 +172,36 @@ func newestAvail(rt *project.RepTruth, relMS int64) int64 {
 	return n
 }
 
+// getWD issues the request on its own goroutine and gives up after `timeout`: a request that the server never
+// answers (endless loop in the handler) must not block the driver.  The abandoned goroutine keeps running until
+// the driver exits, so callers stop the scenario after the first unanswered request.
+func getWD(env *tl.Env, u string, timeout time.Duration) (int, bool) {
+	ch := make(chan int, 1)
+	go func() { ch <- env.S.Get(u).Status }()
+	select {
+	case st := <-ch:
+		return st, true
+	case <-time.After(timeout):
+		return 0, false
+	}
+}
+
+// memGuard stops the driver (exit 3 = machinery problem) if the heap explodes, e.g. when an abandoned handler
+// allocates without bound; the machine is shared.
+func memGuard(limit uint64) {
+	go func() {
+		var ms runtime.MemStats
+		for {
+			time.Sleep(250 * time.Millisecond)
+			runtime.ReadMemStats(&ms)
+			if ms.HeapAlloc > limit {
+				fmt.Fprintf(os.Stderr, "driver error: heap %d MB exceeds the guard (abandoned request allocating?)\n", ms.HeapAlloc>>20)
+				os.Exit(3)
+			}
+		}
+	}()
+}
+
 type job struct {
 	run func(idx int, emit func(tr.E))
 }
@@ -238,13 +269,6 @@ func Main(args []string) error {
 	var samples []any
 	var jobs, tjobs []job // statuscode jobs (CPU bound) / traffic jobs (mostly sleeping)
 	sem := make(chan struct{}, 64) // bounds concurrently sleeping traffic requests
-	var tjobsN int                 // set before the jobs run: scenario numbers = position in the trace
-	scNr := func(sleeping bool, idx int) int {
-		if sleeping {
-			return idx
-		}
-		return tjobsN + idx
-	}
 
 	// ------------------------------------------------------------ (B) traffic scenarios first: they sleep
 	type tsc struct {
@@ -367,7 +391,7 @@ func Main(args []string) error {
 				hp = append(hp, p.hdr())
 			}
 			c := tl.Cfg{Mode: "number", SNR: -1, AST: sc.ast, TSBD: -1, Extra: []string{"traffic_" + strings.Join(names, ",")}}
-			emit(tl.HeaderE(scNr(sc.sh["s"]+sc.sh["h"] > 0, idx), a, rt, c, tr.E{"part": "traffic", "pats": []any{}, "traffic": hp, "multirep": false}))
+			emit(tl.HeaderE(idx, a, rt, c, tr.E{"part": "traffic", "pats": []any{}, "traffic": hp, "multirep": false}))
 			mu := c.Prefix(a.Name) + "/" + a.MPD + fmt.Sprintf("?nowMS=%d", sc.base*1000)
 			r := env.S.Get(mu)
 			var doc mpdDoc
@@ -424,12 +448,12 @@ func Main(args []string) error {
 			do := func(q *rq) {
 				for attempt := 0; attempt < 4; attempt++ {
 					t0 := time.Now()
-					r := env.S.Get(q.url)
+					st, answered := getWD(env, q.url, 45*time.Second) // hanging = 10 s; no answer at all is recorded as status 0
 					ms := time.Since(t0).Milliseconds()
 					if attempt == 0 || ms < q.ms {
-						q.st, q.ms = r.Status, ms
+						q.st, q.ms = st, ms
 					}
-					if ms < 500 || (r.Status == 503 && ms >= 9000) {
+					if ms < 500 || (st == 503 && ms >= 9000) || !answered {
 						break
 					}
 				}
@@ -467,7 +491,6 @@ func Main(args []string) error {
 			jobs = append(jobs, job{run})
 		}
 	}
-	ntraf := len(jobs)
 	if len(samples) < 2 && len(tscs) > 0 {
 		samples = append(samples, map[string]any{"traffic": tscs[0].pats[0].String(), "asset": tscs[0].a.Name, "ast": tscs[0].ast, "base_sec": tscs[0].base})
 	}
@@ -560,9 +583,12 @@ func Main(args []string) error {
 		}
 	}
 
-	for _, sc := range sscs {
-		sc := sc
-		jobs = append(jobs, job{func(idx int, emit func(tr.E)) {
+	const answerTimeout = 10 * time.Second // a normal answer takes about a millisecond
+	var hungMu sync.Mutex
+	hung := map[string]int{} // configuration class -> scenarios stopped by an unanswered request
+	classOf := func(sc ssc) string { return fmt.Sprintf("ast=%d,far=%v", sc.ast, sc.far) }
+	statusJob := func(sc ssc) job {
+		return job{func(idx int, emit func(tr.E)) {
 			a, rt := sc.a, sc.a.Video
 			c := tl.Cfg{Mode: sc.mode, SNR: sc.snr, AST: sc.ast, TSBD: -1, Extra: []string{statusPart(sc.pats, sc.esc)}}
 			var hp []map[string]any
@@ -576,7 +602,7 @@ func Main(args []string) error {
 					cmin = p.C
 				}
 			}
-			emit(tl.HeaderE(len(tjobs)+idx, a, rt, c, tr.E{"part": "status", "pats": hp, "traffic": []any{}, "multirep": sc.multirep}))
+			emit(tl.HeaderE(idx, a, rt, c, tr.E{"part": "status", "pats": hp, "traffic": []any{}, "multirep": sc.multirep}))
 			N := int64(rt.N)
 			n0 := int64(0)
 			if sc.far {
@@ -585,6 +611,19 @@ func Main(args []string) error {
 			span := (int64(5*cmax) + int64(cmin)) * rt.TS // >= 5 cycles of the longest pattern
 			loopMS := rt.L * 1000 / rt.TS
 			end0 := tl.EndTicks(rt, 0)
+			// one request; false = no answer within answerTimeout (recorded as status 0, scenario stopped)
+			request := func(rep string, n int64, u string, rel int64, b4 bool) bool {
+				st, ok := getWD(env, u+fmt.Sprintf("?nowMS=%d", sc.ast*1000+rel), answerTimeout)
+				np := project.Pair(rel, loopMS)
+				emit(tr.E{"ev": "sreq", "rep": rep, "k": n / N, "i": n % N, "now": np[:], "st": st, "url": u, "b4end0": b4, "rel": fmt.Sprint(rel), "answered": ok})
+				cnt.add(st, fmt.Sprintf("S|%s|%s|%s|%d", a.Name, c.Prefix(""), rep, n))
+				if !ok {
+					hungMu.Lock()
+					hung[classOf(sc)]++
+					hungMu.Unlock()
+				}
+				return ok
+			}
 			for n := n0; n < n0+sc.maxSeg; n++ {
 				st := tl.StartTicks(rt, n)
 				if st-tl.StartTicks(rt, n0) > span {
@@ -599,12 +638,9 @@ func Main(args []string) error {
 					}
 				}
 				rel := tl.AvailRelMS(rt, n, 0) + 1
-				k, i := n/N, n%N
-				u := tl.SegURL(c, a, rt, n)
-				r := env.S.Get(u + fmt.Sprintf("?nowMS=%d", sc.ast*1000+rel))
-				np := project.Pair(rel, loopMS)
-				emit(tr.E{"ev": "sreq", "rep": rt.ID, "k": k, "i": i, "now": np[:], "st": r.Status, "url": u, "b4end0": b4, "rel": fmt.Sprint(rel)})
-				cnt.add(r.Status, fmt.Sprintf("S|%s|%s|%s|%d", a.Name, c.Prefix(""), rt.ID, n))
+				if !request(rt.ID, n, tl.SegURL(c, a, rt, n), rel, b4) {
+					return
+				}
 				// audio $Time$ requests under start_<t> are refused (410) whatever the fault parameters say: that is the
 				// C04 finding "findRefSegMetaFromTime lacks the start offset", not a matter of C14 - not requested here
 				if a.Audio != nil && !(sc.mode == "time" && sc.ast != 0) {
@@ -616,32 +652,73 @@ func Main(args []string) error {
 						v = n + c.EffSNR()
 					}
 					pth := strings.ReplaceAll(strings.ReplaceAll(au.MediaPat, "$Number$", fmt.Sprint(v)), "$Time$", fmt.Sprint(v))
-					u := c.Prefix(a.Name) + "/" + pth
-					rel := rel + 40 // the audio segment may end up to one AAC frame after the video segment
-					r := env.S.Get(u + fmt.Sprintf("?nowMS=%d", sc.ast*1000+rel))
-					np := project.Pair(rel, loopMS)
-					emit(tr.E{"ev": "sreq", "rep": au.ID, "k": k, "i": i, "now": np[:], "st": r.Status, "url": u, "b4end0": b4, "rel": fmt.Sprint(rel)})
-					cnt.add(r.Status, fmt.Sprintf("S|%s|%s|%s|%d", a.Name, c.Prefix(""), au.ID, n))
+					// +40 ms: the audio segment may end up to one AAC frame after the video segment
+					if !request(au.ID, n, c.Prefix(a.Name)+"/"+pth, rel+40, b4) {
+						return
+					}
 				}
 			}
-		}})
+		}}
 	}
+	// Scenarios with a start time whose window begins at the start of the stream go last: the server has been seen
+	// not to answer such requests at all (calcStatusCode -> findLastSegNr with a stream-relative time).  A canary
+	// scenario on an asset with uniform segment durations runs alone first; if it is not answered, the other
+	// scenarios of the class are skipped (each would leave one more handler spinning in this process).
+	var late []ssc
+	for _, sc := range sscs {
+		if sc.ast != 0 && !sc.far {
+			late = append(late, sc)
+		} else {
+			jobs = append(jobs, statusJob(sc))
+		}
+	}
+	uniform := func(a *tl.Asset) bool {
+		for _, d := range a.Video.Dur {
+			if d != a.Video.Dur[0] {
+				return false
+			}
+		}
+		return true
+	}
+	sort.SliceStable(late, func(i, j int) bool { return uniform(late[i].a) && !uniform(late[j].a) })
 	if len(sscs) > 0 {
 		samples = append(samples, map[string]any{"statuscode": statusPart(sscs[0].pats, false), "asset": sscs[0].a.Name, "mode": sscs[0].mode},
 			map[string]any{"statuscode": statusPart(sscs[len(sscs)/2].pats, false), "asset": sscs[len(sscs)/2].a.Name, "mode": sscs[len(sscs)/2].mode,
 				"ast": sscs[len(sscs)/2].ast, "snr": sscs[len(sscs)/2].snr})
 	}
 
+	memGuard(6 << 30)
 	t0 := time.Now()
 	var tbufs [][]tr.E
 	tdone := make(chan struct{})
-	tjobsN = len(tjobs)
-	_ = ntraf
 	go func() { tbufs = runJobs(tjobs, 16); close(tdone) }()
 	bufs := runJobs(jobs, 8)
 	<-tdone
 	bufs = append(tbufs, bufs...)
+	skipped := 0
+	if len(late) > 0 {
+		bufs = append(bufs, runJobs([]job{statusJob(late[0])}, 1)...)
+		if len(hung) == 0 {
+			var rest []job
+			for _, sc := range late[1:] {
+				rest = append(rest, statusJob(sc))
+			}
+			bufs = append(bufs, runJobs(rest, 8)...)
+		} else {
+			skipped = len(late) - 1
+		}
+	}
 	runS := time.Since(t0).Seconds()
+	// scenario numbers = position in the trace
+	nsc := 0
+	for _, b := range bufs {
+		for _, e := range b {
+			if e["ev"] == "hdr" {
+				e["sc"] = nsc
+				nsc++
+			}
+		}
+	}
 
 	// write the trace file(s): contiguous blocks of scenarios per shard
 	K := *shards
@@ -685,7 +762,7 @@ func Main(args []string) error {
 	for k, v := range cnt.byStatus {
 		bs[fmt.Sprint(k)] = v
 	}
-	tr.PrintStats(map[string]any{"scenarios": len(jobs) + len(tjobs), "status_scenarios": len(sscs), "traffic_scenarios": len(tscs), "events": events,
+	tr.PrintStats(map[string]any{"scenarios": nsc, "skipped_scenarios": skipped, "unanswered": hung, "status_scenarios": len(sscs), "traffic_scenarios": len(tscs), "events": events,
 		"requests": cnt.requests, "distinct": len(cnt.distinct), "samples": samples, "by_status": bs, "sleeping_requests": cnt.sleepers,
 		"files": files, "run_s": runS})
 	return nil
